@@ -9,3 +9,4 @@ import JugModel.Props.WorkerBridge
 #print axioms Jug.C12.state_after_stop_is_regular
 #print axioms Jug.WorkerBridge.worker_conforms
 #print axioms Jug.C12.stop_mechanisms_use_known_hooks
+#print axioms Jug.C12.continuation_completes
